@@ -199,3 +199,5 @@ def check(facts, rep, tier, cfg):
 
     rep.rule("C15.R4", "the bind-request queue is a bounded queue whose capacity is the configured bind_buffer_size")
     check_capacity_role(facts, rep, crate, "C15.R4", "BindRequest", "Options.bind_buffer_size", "bind-request queue")
+    rep.rule("C15.R5", "only the stream handle (own id) and the multiplexor handle (0) report on the dropped-flows queue: the id of a resolved bind request is free for re-use and nothing closes it later")
+    check_dropped_flow_senders(facts, rep, crate, "C15.R5")
